@@ -127,6 +127,27 @@ func bytesOf(name string, minLen, maxLen int) []byte {
 	for i := range out {
 		out[i] = byte(val(fmt.Sprintf("%s[%d]", base, i)).Uint64())
 	}
+	if os.Getenv("VSYM_GENERIC") != "" {
+		// field-mode counterexamples are identities that fail for generic values: bytes the solver left at zero are
+		// replaced by arbitrary non-zero ones
+		allZero := true
+		for _, b := range out {
+			if b != 0 {
+				allZero = false
+			}
+		}
+		if allZero {
+			for i := range out {
+				out[i] = byte(17 + 31*i + 7*len(base) + int(base[0]))
+				if out[i] == 0 {
+					out[i] = 1
+				}
+			}
+			if len(out) == 32 {
+				out[0] &= 0x7f // keep 32-byte values below the group order
+			}
+		}
+	}
 	return out
 }
 
